@@ -3,7 +3,8 @@ From Coq Require Import ZArith List Bool.
 From Coq Require String.
 From PS.model Require Import Smt Enc Ind Prog Driver.
 From PS.spec Require Import Spec.
-From PS.proofs Require Import Base C09_proof C09_levels Bubble C09_conc Examples3 Refuted.
+From PS.proofs Require Import Base C09_proof C09_levels Bubble C09_conc Examples3 Refuted CleanLevels.
+From PS.model Require Import Solution.
 Import ListNotations.
 Open Scope Z_scope.
 
@@ -62,6 +63,29 @@ Theorem C09_hypotheses_satisfiable : exists st, reaches ex3_prog st /\ sat ex3_e
   /\ List.length (x_objs (ps_ext st)) = 4%nat /\ List.length (spec_C08 st) = 19%nat.
 Proof. exact ex3_sat. Qed.
 Print Assumptions C09_hypotheses_satisfiable.
+
+(* What the user reads.  buffer_solution e b is the entry of the returned solution for buffer b (build_solution with
+   util.clean_buffer_levels, tied to /repo by the reported-values slice of the check); level_at st e b t is the initial level plus the
+   quantities of the accesses of acting tasks at instants <= t.  For every admitted valuation and every buffer accessed by mandatory
+   tasks only (each access in its own slot), concurrent or not: no instant is reported twice, the reported instants are exactly the
+   change instants of the schedule, the first reported level is the initial level, and the level reported after an instant is
+   level_at that instant. *)
+Theorem C09_reported_levels : forall st e (b : bufrec),
+  sat e (initialize st) -> In b (x_bufs (ps_ext st)) -> buf_regular b = true -> buf_has_optional st b = false ->
+  let r := buffer_solution e b in
+  NoDup (bs_times r)
+  /\ hd_error (bs_levels r) = Some (iv e (VLevel0 (b_id b)))
+  /\ List.length (tl (bs_levels r)) = List.length (bs_times r)
+  /\ (forall t, In t (bs_times r) <-> In t (map (teval e) (buf_changes b)))
+  /\ (forall lv t, In (lv, t) (combine (tl (bs_levels r)) (bs_times r)) -> lv = level_at st e b t).
+Proof. exact reported_levels_of_state. Qed.
+Print Assumptions C09_reported_levels.
+Theorem C09_reported_levels_example : exists st b,
+  reaches ex3_prog st /\ sat ex3_env (initialize st) /\ In b (x_bufs (ps_ext st)) /\ buf_regular b = true /\ buf_has_optional st b = false
+  /\ bs_levels (buffer_solution ex3_env b) = [5; 2; 6] /\ bs_times (buffer_solution ex3_env b) = [2; 7]
+  /\ level_at st ex3_env b 2 = 2 /\ level_at st ex3_env b 7 = 6.
+Proof. exact reported_levels_example. Qed.
+Print Assumptions C09_reported_levels_example.
 
 (* ---- REFUTED on the pinned code (open known findings): the swept clauses below are NOT consequences of the assertion set.
    Each theorem exhibits a reachable problem state, a valuation the assertion set admits, and a clause of the swept list that is
